@@ -485,24 +485,24 @@ class LRUBytesSys(_Sys):
                 c.eq("contains", "contains() per key %r" % keys, [impl.contains(k) for k in keys], [k in m.d for k in keys])
                 c.eq("contains", "`in` per key %r" % keys, [(k in impl) for k in keys], [k in m.d for k in keys])
                 ne, nb = impl.size_entries(), impl.size_bytes()
-                c.eq("size", "size_entries()", ne, len(m.d))
-                c.eq("size", "len()", len(impl), len(m.d))
-                c.eq("bytes", "size_bytes() (sum of the costs of the stored items is %d)" % m.total(), nb, m.total())
-                c.eq("order", "keys() LRU->MRU", list(impl.keys()), list(m.d.keys()))
-                c.eq("items", "items() LRU->MRU", list(impl.items()), m.items())
                 if me and ne > me:
                     c.bad("capacity-entries", "%d entries stored, max_entries=%d" % (ne, me))
                 if mb and nb > mb:
                     c.bad("capacity-bytes", "%d bytes accounted, max_bytes=%d" % (nb, mb))
                 if me == 0 and mb == 0 and (ne or nb or list(impl.keys())):
                     c.bad("disabled", "both caps zero but cache holds %d entries / %d bytes" % (ne, nb))
+                c.eq("size", "size_entries()", ne, len(m.d))
+                c.eq("size", "len()", len(impl), len(m.d))
+                c.eq("bytes", "size_bytes() (sum of the costs of the stored items is %d)" % m.total(), nb, m.total())
+                c.eq("order", "keys() LRU->MRU", list(impl.keys()), list(m.d.keys()))
+                c.eq("items", "items() LRU->MRU", list(impl.items()), m.items())
                 if self.canon(w) != before:
                     c.bad("observer-mutates", "read-only observers (contains/size/keys/items) changed the state")
         except HarnessError:
             raise
         except Exception as e:  # noqa
             return self.raised(op, e)
-        return list(c), out
+        return c[:1], out
 
     def canon(self, w):
         i = w.impl
@@ -520,12 +520,24 @@ class _Rec:
         self.sink.append(tuple(a))
 
 
-def _ns_canon(nsobj, model_ns: RefNS):
+def _ns_state(nsobj, model_ns: RefNS):
+    """(key, value, canonical age) of every stored entry of a real _NamespaceCache, oldest first"""
     d = _attr(nsobj, "_d")
-    out = []
-    for k, ent in d.items():
-        out.append([repr(k), _attr(ent, "value"), model_ns.age(_attr(ent, "ts"))])
-    return out
+    return [(k, _attr(ent, "value"), model_ns.age(_attr(ent, "ts"))) for k, ent in d.items()]
+
+
+def _ns_canon(nsobj, model_ns: RefNS):
+    return [[repr(k), v, a] for k, v, a in _ns_state(nsobj, model_ns)]
+
+
+def _ns_state_check(c: "Chk", nsobj, model_ns: RefNS, label: str = "") -> None:
+    """recency order and (canonical) entry ages of the real object against the model -- reported at the operation
+    that makes them diverge instead of at whatever later read happens to expose it"""
+    got = _ns_state(nsobj, model_ns)
+    exp = [(k, e[1], model_ns.age(e[0])) for k, e in model_ns.d.items()]
+    ok = len(got) == len(exp) and all(key_matches(g[0], x[0]) and g[1:] == x[1:] for g, x in zip(got, exp))
+    if not ok:
+        c.bad("state", "%sstored (key, value, age) oldest->newest = %r, reference model says %r" % (label, got, exp))
 
 
 def _advances(ttl: int):
@@ -563,7 +575,7 @@ class NamespaceSys(_Sys):
                 exp, out = m.get(op[1])
                 got = impl.get(op[1])
                 if check:
-                    c.eq("return:" + out, "get(%r) -> (hit, value) at t=%s" % (op[1], w.clock.t), got, exp)
+                    c.eq("return", "get(%r) -> (hit, value) at t=%s" % (op[1], w.clock.t), got, exp)
             elif op[0] == "set":
                 exp, out = m.set(op[1], op[2])
                 got = impl.set(op[1], op[2])
@@ -583,17 +595,18 @@ class NamespaceSys(_Sys):
             if check:
                 before = self.canon(w)
                 n = impl.size()
-                c.eq("size", "size()", n, len(m.d))
-                c.eq("order", "items() oldest->newest", list(impl.items()), m.items_raw())
                 if n > mx:
                     c.bad("capacity-entries", "%d entries stored, max_entries=%d" % (n, mx))
+                c.eq("size", "size()", n, len(m.d))
+                c.eq("order", "items() oldest->newest", list(impl.items()), m.items_raw())
+                _ns_state_check(c, impl, m)
                 if self.canon(w) != before:
                     c.bad("observer-mutates", "size()/items() changed the state")
         except HarnessError:
             raise
         except Exception as e:  # noqa
             return self.raised(op, e)
-        return list(c), out
+        return c[:1], out
 
     def canon(self, w):
         return [_ns_canon(w.impl, w.model), w.model.canon()]
@@ -645,12 +658,12 @@ class LRUCacheSys(_Sys):
                 exp, out = m.get(key)
                 got = impl.get(key)
                 if check:
-                    c.eq("return:" + out, "get(%r) at t=%s" % (key, w.clock.t), got, exp)
+                    c.eq("return", "get(%r) at t=%s" % (key, w.clock.t), got, exp)
             elif op[0] == "get2":
                 exp, out = m.get2(key)
                 got = impl.get2(key)
                 if check:
-                    c.eq("return:" + out, "get2(%r) -> (hit, value) at t=%s" % (key, w.clock.t), got, exp)
+                    c.eq("return", "get2(%r) -> (hit, value) at t=%s" % (key, w.clock.t), got, exp)
             elif op[0] in ("set", "put"):
                 exp, out = m.set(key, op[2])
                 got = getattr(impl, op[0])(key, op[2])
@@ -660,7 +673,7 @@ class LRUCacheSys(_Sys):
                 exp, out = m.contains(key)
                 got = key in impl
                 if check:
-                    c.eq("return:" + out, "(%r in cache) at t=%s" % (key, w.clock.t), got, exp)
+                    c.eq("return", "(%r in cache) at t=%s" % (key, w.clock.t), got, exp)
             elif op[0] == "items":
                 exp, out = m.items()
                 got = impl.items()
@@ -680,22 +693,23 @@ class LRUCacheSys(_Sys):
             if check:
                 before = self.canon(w)
                 n = impl.size()
+                if n > mx:
+                    c.bad("capacity-entries", "%d entries stored, max_entries=%d" % (n, mx))
                 c.eq("size", "size()", n, len(m.ns.d))
                 c.eq("size", "len()", len(impl), len(m.ns.d))
+                _ns_state_check(c, _attr(impl, "_ns"), m.ns)
                 st_i, st_m = dict(impl.stats), m.stats()
                 if mx == 0:  # what a disabled cache reports as 'evicted' is not specified
                     st_i.pop("evicted", None)
                     st_m.pop("evicted", None)
                 c.eq("stats", "stats", st_i, st_m)
-                if n > mx:
-                    c.bad("capacity-entries", "%d entries stored, max_entries=%d" % (n, mx))
                 if self.canon(w) != before:
                     c.bad("observer-mutates", "size()/len()/stats changed the state")
         except HarnessError:
             raise
         except Exception as e:  # noqa
             return self.raised(op, e)
-        return list(c), out
+        return c[:1], out
 
     def canon(self, w):
         return [_ns_canon(_attr(w.impl, "_ns"), w.model.ns), w.model.canon()]
@@ -736,7 +750,7 @@ class CacheManagerSys(_Sys):
                 exp, out = m.get(op[1], key)
                 got = impl.get(op[1], key)
                 if check:
-                    c.eq("return:" + out, "get(%r, %r) -> (hit, value) at t=%s" % (op[1], key, w.clock.t), got, exp)
+                    c.eq("return", "get(%r, %r) -> (hit, value) at t=%s" % (op[1], key, w.clock.t), got, exp)
             elif op[0] == "set":
                 key = hkey(op[2])
                 exp, out = m.set(op[1], key, op[3])
@@ -767,16 +781,17 @@ class CacheManagerSys(_Sys):
                     st_i.pop("evicted", None)
                     st_m.pop("evicted", None)
                 c.eq("stats", "stats", st_i, st_m)
-                for ns, nsobj in _attr(impl, "_ns").items():
+                for ns, nsobj in sorted(_attr(impl, "_ns").items()):
                     if nsobj.size() > mx:
                         c.bad("capacity-entries", "namespace %r holds %d entries, max_entries=%d" % (ns, nsobj.size(), mx))
+                    _ns_state_check(c, nsobj, m.nss.get(ns) or RefNS(mx, self.p["ttl"], w.clock), "namespace %r: " % ns)
                 if self.canon(w) != before:
                     c.bad("observer-mutates", "stats changed the state")
         except HarnessError:
             raise
         except Exception as e:  # noqa
             return self.raised(op, e)
-        return list(c), out
+        return c[:1], out
 
     def canon(self, w):
         nss = _attr(w.impl, "_ns")
@@ -845,17 +860,17 @@ class DetLRUSys(_Sys):
                 c.eq("contains", "`in` per key %r" % keys, [(k in impl) for k in keys], [k in m.d for k in keys])
                 c.eq("contains", "contains() per key %r" % keys, [impl.contains(k) for k in keys], [k in m.d for k in keys])
                 n = len(impl)
-                c.eq("size", "len()", n, len(m.d))
-                c.eq("order", "items() LRU->MRU", list(impl.items()), m.items())
                 if n > cap:
                     c.bad("capacity-entries", "%d entries stored, cap=%d" % (n, cap))
+                c.eq("size", "len()", n, len(m.d))
+                c.eq("order", "items() LRU->MRU", list(impl.items()), m.items())
                 if self.canon(w) != before:
                     c.bad("observer-mutates", "len()/contains()/items() changed the state")
         except HarnessError:
             raise
         except Exception as e:  # noqa
             return self.raised(op, e)
-        return list(c), out
+        return c[:1], out
 
     def canon(self, w):
         i = w.impl
@@ -904,17 +919,18 @@ class FifoSetSys(_Sys):
                 keys = list(self.p["keys"])
                 c.eq("contains", "contains() per key %r" % keys, [impl.contains(k) for k in keys], [k in m.l for k in keys])
                 c.eq("contains", "`in` per key %r" % keys, [(k in impl) for k in keys], [k in m.l for k in keys])
-                c.eq("size", "size()", impl.size(), len(m.l))
-                c.eq("size", "len()", len(impl), len(m.l))
                 if impl.size() > cap:
                     c.bad("capacity-entries", "%d members, cap=%d" % (impl.size(), cap))
+                c.eq("size", "size()", impl.size(), len(m.l))
+                c.eq("size", "len()", len(impl), len(m.l))
+                c.eq("state", "insertion order of the members (oldest first)", [x for x in _attr(impl, "_q")], m.l)
                 if self.canon(w) != before:
                     c.bad("observer-mutates", "contains()/size() changed the state")
         except HarnessError:
             raise
         except Exception as e:  # noqa
             return self.raised(op, e)
-        return list(c), out
+        return c[:1], out
 
     def canon(self, w):
         i = w.impl
@@ -988,7 +1004,7 @@ class RingSys(_Sys):
             raise
         except Exception as e:  # noqa
             return self.raised(op, e)
-        return list(c), out
+        return c[:1], out
 
     def canon(self, w):
         i = w.impl
@@ -1281,7 +1297,7 @@ def thread_scenarios(thorough: bool) -> List[dict]:
             if not primary and not thorough:
                 continue
             out.append({"kind": "threads", "wrapper": wrapper, "params": params, "setup": [],
-                        "programs": [[small[t]] for t in tri], "bound": 2})
+                        "programs": [[small[t]] for t in tri], "bound": 2 if (thorough and primary) else 1})
         if thorough:
             # (2,2) on the small alphabet
             for p0, p1 in itertools.combinations_with_replacement(list(itertools.product(range(len(small)), repeat=2)), 2):
